@@ -482,8 +482,8 @@ def run_oracle(case, obs, af):
 # ----------------------------------------------------------------------------- enumeration
 
 def outcomes(ctx, rng, factor):
-    n_rej = ctx.pick(3, 14) * factor
-    n_warn = ctx.pick(1, 4)
+    n_rej = ctx.pick(3, 40) * min(factor, 2)
+    n_warn = ctx.pick(1, 8)
     outs = [{"tag": "exit0-silent", "kind": "exit", "code": 0, "stderr": ""}]
     for i in range(n_warn):
         outs.append({"tag": "exit0-stderr", "kind": "exit", "code": 0, "stderr": gen_stderr(rng, directed=False) if i else "Warning: /data/g/q1 is odd\n"})
@@ -521,7 +521,7 @@ def explore(ctx, factor, bs):
             for enk in (False, True):
                 args_case(ctx, skip, odk, enk)
     # (b) cleaner, function level
-    n_clean = ctx.pick(2500, 40000) * factor
+    n_clean = ctx.pick(2500, 120000) * min(factor, 4)
     for i in range(n_clean):
         cleaner_case(ctx, gen_stderr(rng, p_odd=0.0))
     # directed shapes behind the guards of the cleaner theorems (known findings C18-F1, C18-F2)
